@@ -1,0 +1,61 @@
+//go:build verif
+// +build verif
+
+// Read-only accessors used by the verification harness under /verif (build tag "verif").
+// Nothing here is compiled into a normal build.
+
+package state
+
+import (
+	"math/big"
+
+	"github.com/youchainhq/go-youchain/common"
+)
+
+// VerifAccountExists reports whether a live (not deleted) state object exists, without creating one.
+func (st *StateDB) VerifAccountExists(addr common.Address) bool {
+	return st.getStateObject(addr) != nil
+}
+
+// VerifDelegationBalance returns the delegation balance of addr (0 when the account does not exist).
+func (st *StateDB) VerifDelegationBalance(addr common.Address) *big.Int {
+	if obj := st.getStateObject(addr); obj != nil {
+		return new(big.Int).Set(obj.DelegationBalance())
+	}
+	return new(big.Int)
+}
+
+// VerifDelegations returns the validators addr delegates to (delegator-side index).
+func (st *StateDB) VerifDelegations(addr common.Address) []common.Address {
+	obj := st.getStateObject(addr)
+	if obj == nil {
+		return nil
+	}
+	var out []common.Address
+	for _, a := range obj.Delegations() {
+		out = append(out, a)
+	}
+	return out
+}
+
+// VerifValidatorIndex returns the validator address index as the state currently holds it.
+func (st *StateDB) VerifValidatorIndex() []common.Address {
+	return st.validatorIndex.List()
+}
+
+// VerifLogCount returns the number of logs currently held.
+func (st *StateDB) VerifLogCount() int {
+	n := 0
+	for _, l := range st.logs {
+		n += len(l)
+	}
+	return n
+}
+
+// VerifRevisionLists returns the lengths of the two revision lists and of the two journals.
+func (st *StateDB) VerifRevisionLists() (revs, valRevs, journal, valJournal int) {
+	return len(st.validRevisions), len(st.valValidRevisions), st.journal.length(), st.validatorJournal.length()
+}
+
+// VerifDeleted reports the unexported deleted flag of a validator record.
+func (v *Validator) VerifDeleted() bool { return v.deleted }
